@@ -480,6 +480,7 @@ func scenarios(tier string) []*explore.Scenario {
 			}
 		}
 	}
+	out = append(out, wsScenarios(tier)...)
 	return out
 }
 
